@@ -31,6 +31,7 @@ type PropDef struct {
 	Funcs       []FuncCheck
 	Asm         bool // include the amd64 assembly obligations (node16)
 	Lemmas      bool // include the induction proofs of the counting lemmas
+	Static      func(p *Program) []*Obligation // solver-free obligations over the SSA
 	Trusted     []string
 	Assumptions []string
 	Floor       int // vacuity: minimal number of obligations
@@ -336,6 +337,19 @@ func runProp(def *PropDef, cfg *SolverCfg, tier string) *checkResult {
 		res.obs = append(res.obs, aobs...)
 		res.asmNotes = notes
 		res.funcs = append(res.funcs, "searchNode16 [node16_amd64.s]", "insertPosNode16 [node16_amd64.s]")
+	}
+	if def.Static != nil {
+		p := progs[""]
+		if p == nil {
+			var err error
+			p, err = loadAll("")
+			if err != nil {
+				res.genErrs = append(res.genErrs, "load: "+err.Error())
+				return res
+			}
+			lastProgram = p
+		}
+		res.obs = append(res.obs, def.Static(p)...)
 	}
 	if def.Lemmas {
 		res.obs = append(res.obs, lemmaObligations()...)
